@@ -175,7 +175,9 @@ def tetra_body(H, V):
     _in_polyhedron_claims(H, "tetra.insphere", p.insphere, P, faces)
 
 
-def placed_body(kind, name, quat):
+def placed_body(kind, name, quat, start=0):
+    """``start`` rotates the vertex list of a polygon: ConvexPolygon keeps the caller's first vertex first, so every edge
+    gets to be the closing edge (last vertex -> first vertex) in one of the obligations."""
     def body(H, V):
         import coxeter.shapes as S
 
@@ -204,6 +206,7 @@ def placed_body(kind, name, quat):
             H.claim("centred_bounded.touches_a_face", H.or_(*[H.eqb(r * r * nn, h * h) for h, nn in hs]))
         else:
             base = [(x, y, 0) for x, y in SH.POLYGONS[name]]
+            base = base[start:] + base[:start]
             P = SH.place(base, quat, s, t)
             p = S.ConvexPolygon(H.arr(P))
             vs = [list(v) for v in p.vertices]
@@ -409,6 +412,10 @@ def obligations(tier, seed):
     for kind, nm, q in sorted(set(placed)):
         add("C13/centred.%s.%s.%s" % (kind, nm, q), ["s", "tx", "ty", "tz"], placed_body(kind, nm, q), positive=["s"], first=first,
             bounds="%s %s, free scale/translation, rotation %s" % (kind, nm, q), paths=(3 if tier == "quick" else 10))
+    starts = [("tri", "r1", 1), ("tri", "id", 2), ("quad", "id", 1), ("quad", "r1", 2), ("quad", "r2", 3), ("pent", "r1", 1), ("pent", "r2", 2), ("pent", "id", 3), ("pent", "r3", 4)]
+    for nm, q, st in starts:
+        add("C13/centred.ConvexPolygon.%s.%s.start%d" % (nm, q, st), ["s", "tx", "ty", "tz"], placed_body("ConvexPolygon", nm, q, st), positive=["s"], first=first,
+            bounds="ConvexPolygon %s listed from vertex %d, free scale/translation, rotation %s" % (nm, st, q), paths=(3 if tier == "quick" else 10))
     for kind, nm, q in [("Polyhedron", "skew", "r1"), ("Polyhedron", "cube", "r2"), ("Polygon", "arrow", "r1"), ("Polygon", "L", "id")]:
         add("C13/minimal_bounding.%s.%s.%s" % (kind, nm, q), ["dummy"], miniball_body(kind, nm, q), first=dict(dummy=F(1)),
             bounds="%s %s concrete placement (rotation %s, offset (3,-2,5))" % (kind, nm, q), paths=2)
